@@ -30,6 +30,46 @@ def compile_prog(src, top=None, mode2D=False, cache=True):
     return sc
 
 
+VENEER_AT_REST = dict(
+    activity=0, currentScenario=None, currentBehavior=None, currentSimulation=None,
+    evaluatingGuard=False, evaluatingRequirement=False, mode2D=False, lockedModel=None,
+    loadingModel=False,
+)
+
+
+def veneer_dirty():
+    """Names of veneer globals that are not in their at-rest state."""
+    import scenic.syntax.veneer as v
+
+    bad = [k for k, want in VENEER_AT_REST.items() if getattr(v, k) != want]
+    for k in ("scenarioStack", "runningScenarios", "scenarios", "_globalParameters", "lockedParameters"):
+        if len(getattr(v, k)):
+            bad.append(k)
+    return bad
+
+
+def sanitize():
+    """Isolation between runs that are not about process history (that is C14's job):
+    collect abandoned generators now (their late close can rewrite veneer globals) and
+    force the interpreter state back to rest.  Returns what had to be repaired."""
+    import gc
+
+    import scenic.syntax.veneer as v
+
+    gc.collect()
+    bad = veneer_dirty()
+    for k in bad:
+        if k in VENEER_AT_REST:
+            setattr(v, k, VENEER_AT_REST[k])
+        elif k == "_globalParameters":
+            v._globalParameters = {}
+        elif k == "lockedParameters":
+            v.lockedParameters = set()
+        else:
+            setattr(v, k, [])
+    return bad
+
+
 def set_env(tables, fault_plan=None):
     userlib.reset()
     CTX.tables = {int(k): list(v) for k, v in tables.items()}
